@@ -41,6 +41,7 @@ type Contract struct {
 	ResultNames []string
 	Requires    []*Clause
 	Ensures     []*Clause
+	Assumes     []*Clause // postconditions assumed at call sites and NOT checked against the body (listed as assumptions)
 	Modifies    []*SExpr
 	HasModifies bool
 	Loops       map[int]*LoopSpec
@@ -321,6 +322,15 @@ func (cs *Contracts) LoadFile(path, pkg string) error {
 			fs := strings.Fields(rest)
 			if cur != nil && len(fs) == 2 {
 				cur.ResultAlias[fs[0]] = fs[1]
+			}
+		case "assumes":
+			if cur == nil {
+				cs.errf(path, it.line, "assumes outside func")
+				continue
+			}
+			c := mk("assumes", rest)
+			if c != nil {
+				cur.Assumes = append(cur.Assumes, c)
 			}
 		case "requires", "ensures":
 			if curLemma != nil {
